@@ -8,9 +8,13 @@ TRACE = []
 PID = [0]
 
 
+EXECUTIONS = {}      # test name -> number of times its body started (tests whose outcome depends on the iteration)
+
+
 def reset():
     del TRACE[:]
     PID[0] = 0
+    EXECUTIONS.clear()
 
 
 def ev(*a):
@@ -135,14 +139,15 @@ def lname(layer):
 # ---------------------------------------------------------------- tests
 
 (PASS, FAIL, ERROR, SKIP_BODY, SKIP_DECO, XFAIL, ERR_TD, SUBFAIL2, SKIP_SETUP, XPASS,
- CLEANUP_ERR, SYSEXIT, SETUP_ERR, TD_ERR, SUB_ERR, SUBPASS_PASS, SUBPASS_FAIL, SWAP_ERR, KBD) = range(19)
+ CLEANUP_ERR, SYSEXIT, SETUP_ERR, TD_ERR, SUB_ERR, SUBPASS_PASS, SUBPASS_FAIL, SWAP_ERR, KBD, FAIL_FIRST, ERR_FIRST) = range(21)
 KIND_NAMES = ['pass', 'fail', 'error', 'skip-in-body', 'skip-decorator', 'expected-failure',
               'body-error+tearDown-error', 'two-failing-subtests', 'skip-in-setUp', 'unexpected-success',
               'cleanup-error', 'SystemExit-in-body', 'setUp-error', 'tearDown-error', 'subtest-error+pass',
-              'passing-subtest-then-pass', 'passing-subtest-then-fail', 'error-while-stderr-silenced', 'KeyboardInterrupt-in-body']
+              'passing-subtest-then-pass', 'passing-subtest-then-fail', 'error-while-stderr-silenced', 'KeyboardInterrupt-in-body',
+              'fails-on-its-first-execution-only', 'errors-on-its-first-execution-only']
 # number of failure / error / skip result events each kind produces
-N_FAIL = {FAIL: 1, SUBFAIL2: 2, SUBPASS_FAIL: 1}
-N_ERR = {ERROR: 1, ERR_TD: 2, CLEANUP_ERR: 1, SYSEXIT: 1, SETUP_ERR: 1, TD_ERR: 1, SUB_ERR: 1, SWAP_ERR: 1}
+N_FAIL = {FAIL: 1, SUBFAIL2: 2, SUBPASS_FAIL: 1, FAIL_FIRST: 1}      # FAIL_FIRST / ERR_FIRST: one event over the whole run (state kept across --repeat iterations)
+N_ERR = {ERROR: 1, ERR_TD: 2, CLEANUP_ERR: 1, SYSEXIT: 1, SETUP_ERR: 1, TD_ERR: 1, SUB_ERR: 1, SWAP_ERR: 1, ERR_FIRST: 1}
 N_SKIP = {SKIP_BODY: 1, SKIP_DECO: 1, SKIP_SETUP: 1}
 BAD = set(N_FAIL) | set(N_ERR) | {XPASS}
 
@@ -159,7 +164,7 @@ class _Silencer:
         pass
 
 
-def mk_test(name, kind, layer=None, level=None, exc=0, out=None, count=None, body=None, late=None):
+def mk_test(name, kind, layer=None, level=None, exc=0, out=None, count=None, body=None, late=None, td_out=None):
     """A unittest.TestCase with one runTest whose outcome is `kind`.
     out: optional callable(name) run at the start of setUp (writes tokens).
     """
@@ -189,6 +194,12 @@ def mk_test(name, kind, layer=None, level=None, exc=0, out=None, count=None, bod
             ev('test', name)
             if body is not None:
                 body()
+            if kind in (FAIL_FIRST, ERR_FIRST):
+                EXECUTIONS[name] = EXECUTIONS.get(name, 0) + 1
+                if EXECUTIONS[name] == 1:
+                    if kind == FAIL_FIRST:
+                        self.fail('failed the first time ' + name)
+                    raise E('error the first time ' + name)
             if kind == FAIL:
                 self.fail('failed ' + name)
             elif kind in (ERROR, SWAP_ERR):
@@ -223,6 +234,8 @@ def mk_test(name, kind, layer=None, level=None, exc=0, out=None, count=None, bod
 
         def tearDown(self):
             ev('tearDown', name)
+            if td_out is not None:      # output written after the body (and after a failure of the body was reported)
+                td_out(name)
             if kind in (ERR_TD, TD_ERR):
                 raise E('tearDown')
 
